@@ -243,6 +243,16 @@ def search(ctx):
         big = py_bit_write([[kk + (1 << w), w]])
         if big != {'err': 'BitIOError'}:
             ctx.violation('bitio.too_large', f'write_number({kk + (1 << w)}, {w}) -> {big}', input={'writes': [[kk + (1 << w), w]]})
+    # the largest values and keys the two-byte length fields can carry (round trip only)
+    for d in ({'k': bytes(65535)}, {'k': bytes(65534), 'l': b'x'}, {'a' * 65535: b'v'}, {'é' * 32767 + '1': b''}):
+        ctx.case(json.dumps(['sd-limit', [[len(kk.encode('utf-8')), len(v)] for kk, v in d.items()]]))
+        ctx.count('dict_at_size_limit')
+        a = py_write_dict(d)
+        brief = {'dict_sizes': [[len(kk.encode('utf-8')), len(v)] for kk, v in d.items()]}
+        if 'err' in a:
+            ctx.violation('dict.write_raises', f'write_binary_dict raised {a["err"]} on a key/value of a length within the limit', input=brief)
+        elif py_read_dict(a['ok']) != {'ok': [[list(kk.encode('utf-8')), list(v)] for kk, v in d.items()]}:
+            ctx.violation('dict.roundtrip', 'read_binary_dict(write_binary_dict(d)) != d at the size limit', input=brief)
     for k in range(ctx.scale(200, 4000)):
         d = {rand_key(rng): bytes(rng.randrange(256) for _ in range(rng.choice([0, 1, 3, 40]))) for _ in range(rng.randint(0, 5))}
         a = py_write_dict(d)
